@@ -177,7 +177,7 @@ class BaseWorklist(list):
         diti_index : int
             Type of DiTis to use in subsequent steps
         """
-        if not (len(self) == 0 or self[-1][0] == "B"):
+        if not (len(self) == 0 or self[-1] == "B;"):
             raise InvalidOperationError(
                 "DiTi type can only be switched at the beginning or after a Break/commit step. Read the docstring."
             )
